@@ -61,7 +61,8 @@ def check_targets(bdir, src, mf, unity):
                 v.append(('C15:targets:custom-sources' + (':flat-layout' if flat else ''), 'custom target %s: its statement consumes %s but intro-targets.json lists %s'
                           % (t['id'], sorted(os.path.relpath(p, bdir) for p in consumed - listed) or '(same)', sorted(os.path.relpath(p, bdir) for p in listed - consumed) or '(same)')))
         # sources consumed by the compile statements of this target
-        if typ in ('executable', 'static library', 'shared library', 'shared module') and not unity:
+        # (unity builds too: their compile statements consume the unity files, which must be the listed generated sources)
+        if typ in ('executable', 'static library', 'shared library', 'shared module'):
             objs = [p for p in e.ins]
             consumed = set()
             ok = True
@@ -88,6 +89,10 @@ def check_targets(bdir, src, mf, unity):
             # headers are listed as sources but are no explicit input of any compile statement
             listed_c = {p for p in listed if not re.search(r'\.(h|hh|hpp|hxx|H|inc|inl)$', p)}
             st['targets_with_sources_compared'] += 1
+            if unity:
+                st['unity_targets_compared'] = st.get('unity_targets_compared', 0) + 1
+                if len([p for p in consumed if '-unity' in os.path.basename(p)]) > 1:
+                    st['unity_targets_with_several_unity_files'] = st.get('unity_targets_with_several_unity_files', 0) + 1
             if listed_c != consumed:
                 v.append(('C15:targets:sources', 'target %s: compile statements consume %s but intro-targets.json lists %s'
                           % (t['id'], sorted(os.path.relpath(p, bdir) for p in consumed - listed_c) or '(same)', sorted(os.path.relpath(p, bdir) for p in listed_c - consumed) or '(same)')))
@@ -496,7 +501,7 @@ def check_project(job):
     st = {'cases': 0}
     try:
         mf = rn.parse_file(os.path.join(bdir, 'build.ninja'))
-        vv, s2 = check_targets(bdir, src, mf, '--unity=on' in args)
+        vv, s2 = check_targets(bdir, src, mf, any(a.startswith('--unity=') for a in args))
         v += vv
         st.update(s2)
         st['cases'] += s2['targets']
@@ -516,7 +521,7 @@ def check_project(job):
             tag = ' [after setup --reconfigure %s]' % ' '.join(extra)
             try:
                 mf = rn.parse_file(os.path.join(bdir, 'build.ninja'))
-                vv, s2 = check_targets(bdir, src, mf, '--unity=on' in args)
+                vv, s2 = check_targets(bdir, src, mf, any(a.startswith('--unity=') for a in args))
                 v += [(k, w + tag) for k, w in vv]
                 st['cases'] += s2['targets']
             except (rn.NinjaError, OSError) as e:
@@ -701,6 +706,25 @@ def main():
                  'clang.ini': "[binaries]\nc = 'clang'\n"}
         for combo in (('--native-file', 'src/clang.ini'), ('--native-file', 'src/clang.ini', '--layout=flat')):
             jobs.append(('placed', 'LLVM IR sources ' + ' '.join(combo[2:]), files, None, combo, bs_files_for(files)))
+    # unity builds: targets with 1 / unity_size / unity_size+1 / 2*unity_size+1 sources of one language, two languages in one
+    # target, a generated source among them - for the default unity_size and for 2, per-subproject unity too
+    files = {'main.c': 'int main(void) { return 0; }\n', 'subprojects/us/meson.build': "project('us', 'c')\nstatic_library('usl', 'u1.c', 'u2.c', 'u3.c')\n"}
+    for i in range(1, 10):
+        files['s%d.c' % i] = 'int s%d(void) { return %d; }\n' % (i, i)
+        files['t%d.cpp' % i] = 'int t%d(void) { return %d; }\n' % (i, i)
+    for i in range(1, 4):
+        files['subprojects/us/u%d.c' % i] = 'int u%d(void) { return %d; }\n' % (i, i)
+    cs = lambda a, b: ', '.join("'s%d.c'" % i for i in range(a, b + 1))
+    files['meson.build'] = ("project('unity', 'c', 'cpp')\nsubproject('us')\n"
+                            "gen = custom_target('gen', output: 'gen.c', command: ['touch', '@OUTPUT@'])\n"
+                            "static_library('u_one', 's1.c')\n"
+                            "static_library('u_four', %s)\n"
+                            "static_library('u_five', %s)\n"
+                            "shared_library('u_nine', %s)\n"
+                            "executable('u_mixed', 'main.c', %s, 't1.cpp', 't2.cpp', 't3.cpp', gen)\n"
+                            "executable('u_gen', 'main.c', 's1.c', gen)\n" % (cs(1, 4), cs(1, 5), cs(1, 9), cs(1, 5)))
+    for combo in (('--unity=on',), ('--unity=on', '-Dunity_size=2'), ('--unity=subprojects',), ('--unity=on', '--layout=flat')):
+        jobs.append(('placed', 'unity build ' + ' '.join(combo), files, None, combo, bs_files_for(files)))
     rich = dict(RICH)
     jobs.append(('rich', 'rich', rich, None, (), bs_files_for(RICH)))
     jobs.append(('rich', 'rich-flat', rich, None, ('--layout=flat',), bs_files_for(RICH)))
@@ -737,8 +761,10 @@ def main():
     ck.sample({'generated_project': jobs[0][1], 'option_cmdlines': OPT_CMDLINES[:3]})
     ck.require(tot.get('gen', {}).get('targets_with_sources_compared', 0) > 50 and tot.get('tests', {}).get('cases', 0) > 5 and tot.get('install', {}).get('cases', 0) > 10
                and tot.get('opts', {}).get('cases', 0) > 50, 'a relational sub-check compared too little: %r' % tot)
+    ck.require(tot.get('placed', {}).get('unity_targets_with_several_unity_files', 0) >= 8 or not ck.want('placed'),
+               'the unity family compared no target with more than one unity file: %r' % tot.get('placed'))
     n = sum(t.get('cases', 0) for t in tot.values())
-    ck.assume('ninja grammar/scoping from lib/verif/refninja.py; headers listed as target sources are not expected among compile inputs; unity builds and targets using prebuilt/extracted objects are skipped for the sources comparison')
+    ck.assume('ninja grammar/scoping from lib/verif/refninja.py; headers listed as target sources are not expected among compile inputs; targets using prebuilt/extracted objects are skipped for the sources comparison')
     ck.finish(evaluations=n, distinct_nontrivial=len(classes), skipped_unspecified=sum(t.get('skipped_unspecified', 0) for t in tot.values()),
               rule='projgen shapes (<= 3 targets, placements%s) with decoy build files, two hand-written rich projects and %s of test cases/common: intro-targets.json vs build.ninja (output names, consumed sources), '
                    'intro-buildsystem_files.json vs files read; an option project under %d command lines: intro-buildoptions.json vs message()d get_option(); a test project: intro-tests/benchmarks vs argv/env seen by '
